@@ -396,7 +396,8 @@ def gen_planning_problem(rng, pid, net, with_lanelet_goal=True):
             gl = rng.pick(lanelets)
             g["pos"] = _place({"t": "circ", "r": rng.uniform(1, 3)}, lanelet_point(rng, gl), 0.0)
         elif r < 0.85 and with_lanelet_goal:
-            goal_lanelets[gi] = sorted(rng.sample([x["id"] for x in lanelets], rng.randint(1, min(2, len(lanelets)))))
+            # (in any order: the table is the caller's list, nothing says it is sorted)
+            goal_lanelets[gi] = rng.sample([x["id"] for x in lanelets], rng.randint(1, min(2, len(lanelets))))
             by_id = {x["id"]: x for x in lanelets}
             g["pos"] = {"t": "group", "shapes": [{"t": "poly", "v": by_id[i]["right"] + by_id[i]["left"][::-1]}
                                                  for i in goal_lanelets[gi]]}
